@@ -1,3 +1,5 @@
 import G3D.Props.C03
 #print axioms G3D.Props.C03.inter_polygon_polygon_noncoplanar_exact
 #print axioms G3D.Props.C03.inter_polygon_polygon_noncoplanar_total
+#print axioms G3D.Props.C03.inter_body_sound
+#print axioms G3D.Props.C03.inter_polygon_polygon_sound
